@@ -6,9 +6,14 @@ import "errors"
 
 // C04 — handshake reaches agreement under packet faults and fails cleanly otherwise.
 
+// vHandshakeRecvBuf, when non-zero, is the receive buffer of the next endpoint built
+// (the two sides of a handshake may advertise different windows).
+var vHandshakeRecvBuf uint32
+
 func vHandshakeEndpoint(il, zc bool) *Association {
 	conn := &vConn{}
-	cfg := &Config{NetConn: conn, LoggerFactory: vLoggerFactory{}, Name: "v", EnableZeroChecksum: zc}
+	cfg := &Config{NetConn: conn, LoggerFactory: vLoggerFactory{}, Name: "v", EnableZeroChecksum: zc, MaxReceiveBufferSize: vHandshakeRecvBuf}
+	vHandshakeRecvBuf = 0
 	cfg.enableInterleaving, cfg.enableInterleavingSet = il, true
 	a := createAssociationFromConfigWithTsn(cfg, nondetU32())
 	a.payloadQueue = newReceivePayloadQueue(192)
@@ -25,6 +30,7 @@ func vCheckAgreement(a, b *Association, ilA, ilB, zA, zB bool) {
 	vassert(a.peerLastTSN() == b.myNextTSN-1 && b.peerLastTSN() == a.myNextTSN-1, "each side expects the peer's initial TSN")
 	vassert(a.peerVerificationTag == b.myVerificationTag && b.peerVerificationTag == a.myVerificationTag, "verification tags agree")
 	vassert(a.maxPayloadSize == b.maxPayloadSize, "both sides fragment to the same payload size")
+	vassert(a.RWND() == b.maxReceiveBufferSize && b.RWND() == a.maxReceiveBufferSize, "each side starts with the receive window the peer advertised")
 	vassert(!a.t1Init.isRunning() && !a.t1Cookie.isRunning() && !b.t1Init.isRunning() && !b.t1Cookie.isRunning(), "no handshake timer is left running on an established association")
 }
 
@@ -33,6 +39,7 @@ func vCheckAgreement(a, b *Association, ilA, ilB, zA, zB bool) {
 func vh_C04_L1_client_server() {
 	ilA, ilB, zA, zB := vPick(2) == 1, vPick(2) == 1, vPick(2) == 1, vPick(2) == 1
 	a := vHandshakeEndpoint(ilA, zA)
+	vHandshakeRecvBuf = 8192 // the server advertises a smaller window than the client
 	b := vHandshakeEndpoint(ilB, zB)
 	a.initClient()
 	b.initServer()
@@ -182,7 +189,7 @@ func vSNAPInit(il, zc bool) *chunkInit {
 	init.initialTSN = nondetU32()
 	init.numOutboundStreams, init.numInboundStreams = 65535, 65535
 	init.initiateTag = 1 + nondetU32()%0xfffffffe
-	init.advertisedReceiverWindowCredit = 1 << 20
+	init.advertisedReceiverWindowCredit = 2048 + uint32(nondetU16())*16 // each side advertises its own window
 	setSupportedExtensions(&init.chunkInitCommon, il)
 	if zc {
 		init.params = append(init.params, &paramZeroChecksumAcceptable{edmid: dtlsErrorDetectionMethod})
@@ -209,6 +216,7 @@ func vh_C04_L1_snap_tokens() {
 	vassert(a.useForwardTSN == !a.useInterleaving && b.useForwardTSN == !b.useInterleaving, "plain FORWARD-TSN otherwise: partial reliability stays available on both sides")
 	vassert(a.sendZeroChecksum == zB && b.sendZeroChecksum == zA, "each side sends zero checksums only if the other declared them acceptable")
 	vassert(a.peerLastTSN() == initB.initialTSN-1 && b.peerLastTSN() == initA.initialTSN-1, "each side expects the peer's initial TSN")
+	vassert(a.RWND() == initB.advertisedReceiverWindowCredit && b.RWND() == initA.advertisedReceiverWindowCredit, "each side starts with the receive window the peer's token advertises")
 	vassert(a.peerVerificationTag == initB.initiateTag && b.peerVerificationTag == initA.initiateTag, "verification tags come from the peer's token")
 	// and a message goes through
 	a.cwnd, b.cwnd = 1<<20, 1<<20
